@@ -406,6 +406,11 @@ fn rid_model(s: &str) -> bool {
     name(svc) && inst_ok && name(ty) && loc_ok
 }
 
+/// bytes that may stand unescaped inside a query value and mean themselves to form decoding
+fn raw_query_ok(s: &[u8]) -> bool {
+    s.iter().all(|b| b.is_ascii_alphanumeric() || b"-._~!$'()*,;:@/?=".contains(b))
+}
+
 fn pct(s: &[u8]) -> String {
     s.iter().map(|b| if b.is_ascii_alphanumeric() || b"-._~".contains(b) { (*b as char).to_string() } else { format!("%{:02X}", b) }).collect()
 }
@@ -449,6 +454,17 @@ fn token_paths(r: &mut Report, rt: &ConjureRuntime, s: &[u8]) {
     judge(r, "query_param", vcommon::catch(|| err_text(query_param::<BearerToken, FromPlainDecoder>(rt, &qp, "k", "k"))));
     if !s.is_empty() {
         judge(r, "path_param", vcommon::catch(|| err_text(path_param::<BearerToken, FromPlainDecoder>(rt, &parts, "p", "p"))));
+    }
+    // the same value written raw where the query grammar allows it (what curl / a browser sends:
+    // '=' ':' '/' '?' '@' ... need no escape inside a query value)
+    if raw_query_ok(s) {
+        let raw = std::str::from_utf8(s).unwrap();
+        for uri in [format!("/a?k={}&z=1", raw), format!("/a?z=1&k={}", raw)] {
+            let uri: http::Uri = uri.parse().unwrap();
+            let parts = parts_of(&uri, None);
+            let qp = parse_query_params(&parts);
+            judge(r, "query_param(raw)", vcommon::catch(|| err_text(query_param::<BearerToken, FromPlainDecoder>(rt, &qp, "k", "k"))));
+        }
     }
     if let Ok(hv) = http::HeaderValue::from_bytes(s) {
         let mut req = Request::new(());
@@ -501,6 +517,14 @@ fn rid_paths(r: &mut Report, rt: &ConjureRuntime, s: &str) {
     let parts = parts_of(&uri, Some(&seg));
     let qp = parse_query_params(&parts);
     judge(r, "query_param", vcommon::catch(|| err_text(query_param::<ResourceIdentifier, FromPlainDecoder>(rt, &qp, "k", "k"))));
+    if raw_query_ok(s.as_bytes()) {
+        for uri in [format!("/a?k={}&z=1", s), format!("/a?z=1&k={}", s)] {
+            let uri: http::Uri = uri.parse().unwrap();
+            let parts = parts_of(&uri, None);
+            let qp = parse_query_params(&parts);
+            judge(r, "query_param(raw)", vcommon::catch(|| err_text(query_param::<ResourceIdentifier, FromPlainDecoder>(rt, &qp, "k", "k"))));
+        }
+    }
     if !s.is_empty() {
         judge(r, "path_param", vcommon::catch(|| err_text(path_param::<ResourceIdentifier, FromPlainDecoder>(rt, &parts, "p", "p"))));
     }
@@ -589,7 +613,7 @@ pub fn run_c16(args: &Args) -> Report {
             }
         }
     }
-    for s in ["ri.a.b.c", "ri.a.b.c.d.e", "ri.a..c.d", "ri....", "ri.a.b.c.d\n", " ri.a.b.c.d", "ri.a.b.c.d "] {
+    for s in ["ri.a..b.c=x", "ri.a..b.c=", "ri.a..b.c==", "ri.a.b.c", "ri.a.b.c.d.e", "ri.a..c.d", "ri....", "ri.a.b.c.d\n", " ri.a.b.c.d", "ri.a.b.c.d "] {
         rid_paths(&mut report, &rt, s);
     }
     report.sample("wire", json!({"token": "abc=def", "paths": ["parse_header_auth", "parse_cookie_auth", "query_param", "path_param", "header_param"], "expect": "rejected on every path"}));
